@@ -103,8 +103,8 @@ REGISTRY.update({
     "C11_old": marker_runner(lambda ctx, n: pm.oracle_c11(ctx), 0, 0, "every operator x operand length x variable atom, every simple specifier as from_specifier input, interpreters X.Y.Z on a grid around the operands", PENDING),
     "C12": marker_runner(pm.oracle_c12, 250, 4000, GEN_RULE,
                          "proof: C12_only_vars / C12_exclude_vars (no variable outside names / never the removed variable, at any depth: an invariant through the whole normaliser), C12_only_implied / C12_only_identity / C12_only_wf "
-                         "(only() is implied by the marker and equivalent to it when it mentions only the kept names) over Model/Marker.v; NOT proved: exclude() leaves the meaning unchanged on markers that do not mention the variable (direct oracle only)",
-                         smark_pairs=100, proof=("Props/C12.v", ["C12_only_implied", "C12_only_identity", "C12_only_wf", "C12_only_vars", "C12_exclude_vars"]), only_rate=1.0),
+                         "(only() is implied by the marker and equivalent to it when it mentions only the kept names), C12_exclude_identity (exclude() leaves the meaning unchanged on markers that do not mention the variable and have no contradictory conjunct / empty disjunction) over Model/Marker.v",
+                         smark_pairs=100, proof=("Props/C12.v", ["C12_only_implied", "C12_only_identity", "C12_only_wf", "C12_only_vars", "C12_exclude_vars", "C12_exclude_identity"]), only_rate=1.0),
     "C15": marker_runner(pm.oracle_c15, 500, 8000, GEN_RULE,
                          "PARTIAL proof: C15_multi_of / C15_union_of (what MultiMarker.of / MarkerUnion.of return: the absorbing marker, the neutral marker, the single marker left, or a compound built from >= 2 pairwise distinct, "
                          "non-absorbing processed markers with pairwise distinct children), C15_one_child_refuted (the recorded finding reproduced on the model). The rest of the normal form (no neutral / same-kind child for arbitrary inputs; "
